@@ -22,6 +22,7 @@ func init() {
 			c.run("C12-L", "LITERAL: escape tables cover every byte value", c12Tables)
 			c.run("C12-K", "PAIR: panic containment inventory", c12Containment)
 			c.run("C12-K2", "TYPESTATE: a function that calls recover() is only ever deferred", recoverOnlyDeferred)
+			c.run("C12-S2", "shared with C20-R7: counts handed to Grow / Repeat while rendering cannot be negative", c20R7)
 			c.run("C12-U", "GUARD-DOM: the escape decoder never writes past / into an empty output buffer", c12Unescape)
 			c.run("C12-N2", "GUARD-DOM: results that may be nil without an error are used only after a nil test", c12NilableResults)
 			c.run("C12-D3", "TYPESTATE: a pointer field a callee may clear is not dereferenced after the call without a new test", c12NilAfterCall)
@@ -1020,26 +1021,44 @@ func c12BufLimit(c *Ctx) {
 		c.undecided("MaxBufSize/uses", "fewer uses of the buffer-size limit than expected")
 	}
 	// and growth is tied to real data: the doubling store happens on the edge where the acknowledged length equals the current size
-	f := c.fn("trzszTransfer.pipelineRecvAck$1")
-	for _, ci := range callsIn(f, anyID) {
-		if fld, m, ok := atomicFieldOf(ci); ok && fld == "trzszTransfer.bufferSize" && m == "Store" {
-			if call, _ := callOf(ci.Common().Args[1]); call != nil && isMinFunc(call.Call.StaticCallee()) {
-				tied := factCmp(factsAt(ci.Block()), token.EQL, anyValue, func(v ssa.Value) bool {
-					lc, _ := callOf(v)
-					return lc != nil && isAtomicOnField(lc, "bufferSize", "Load")
-				})
-				c.check(tied, "bufferSize/doubling-needs-full-chunk", c.ipos(ci), "the size doubles only after a chunk of the current size was acknowledged", "the buffer size can grow without a full chunk having been acknowledged")
-			} else {
-				// the shrink path is clamped from below
-				lo := false
-				for _, l := range origins(ci.Common().Args[1], originOpts{}) {
-					if k, isC := constInt(l.V); isC && k >= 1 {
-						lo = true
-					}
+	nStores := 0
+	for _, f := range c.AllFns {
+		for _, ci := range callsIn(f, anyID) {
+			if fld, m, ok := atomicFieldOf(ci); ok && fld == "trzszTransfer.bufferSize" && m == "Store" {
+				nStores++
+				if k, isC := constInt(ci.Common().Args[1]); isC {
+					c.check(k >= 1024 && k <= 1<<20, "bufferSize/initial@"+c.fnName(f), c.ipos(ci), "a constant chunk size is within 1K..1M", "a constant chunk size outside 1K..1M is stored")
+					continue
 				}
-				c.check(lo, "bufferSize/shrink-clamped", c.ipos(ci), "the shrunken size is clamped from below", "the buffer size can shrink to zero or below")
+				if call, _ := callOf(ci.Common().Args[1]); call != nil && isMinFunc(call.Call.StaticCallee()) {
+					tied := factCmp(factsAt(ci.Block()), token.EQL, anyValue, func(v ssa.Value) bool {
+						lc, _ := callOf(v)
+						return lc != nil && isAtomicOnField(lc, "bufferSize", "Load")
+					})
+					c.check(tied, "bufferSize/doubling-needs-full-chunk", c.ipos(ci), "the size doubles only after a chunk of the current size was acknowledged", "the buffer size can grow without a full chunk having been acknowledged")
+				} else {
+					// the shrink path is clamped from below
+					lo, nl := true, 0
+					for _, l := range origins(ci.Common().Args[1], originOpts{}) {
+						nl++
+						if k, isC := constInt(l.V); isC {
+							if k < 1 {
+								lo = false
+							}
+							continue
+						}
+						fs := append(append([]fact{}, factsAt(ci.Block())...), l.facts()...)
+						if !factCmp(fs, token.GEQ, isValue(l.V), func(v ssa.Value) bool { k, isC := constInt(v); return isC && k >= 1 }) {
+							lo = false
+						}
+					}
+					c.check(lo && nl > 0, "bufferSize/shrink-clamped", c.ipos(ci), "the shrunken size is clamped from below (every value that can be stored is a positive constant or was found >= a positive constant)", "the buffer size can shrink to zero or below: a value reaches the store that was not clamped from below")
+				}
 			}
 		}
+	}
+	if nStores < 3 {
+		c.undecided("bufferSize/stores", "fewer stores of the chunk size than expected")
 	}
 }
 
